@@ -30,6 +30,7 @@ ORACLES = [
     (r'timestamp :: impl Timestamp / fn (add|sub)_days|kani::ts_(add|sub)_days', ['ts_add_days']),
     (r'fn (mul_f64|div_f64)$|kani::(dt|ym)_(mul|div)_f64|kani::(mul|div)_f64_', ['scale_f64']),
     (r'kani::scan_parse_fraction', ['fraction_round', 'parse_grid']),
+    (r'oracle :: impl Date / fn sub_date$|kani::od_sub_date', ['od_sub_date']),
     (r'impl DateTime for \w+ / fn second$|kani::second_accessor', ['second_accessor']),
     (r'impl Date / fn and_hms|impl From<Timestamp> for Time / fn from', ['and_hms']),
     (r'impl (Date|Timestamp) / fn (add_time|sub_time|sub_timestamp|sub_date|add_interval_dt|sub_interval_dt)|impl Interval(DT|YM) / fn (add|sub)_interval_(dt|ym)|impl (Timestamp|IntervalDT|IntervalYM) / fn try_from_(usecs|months)', ['linear_arith']),
